@@ -176,7 +176,9 @@ impl EmmyLuaAnalysis {
         }
         self.compilation
             .remove_index(removed_files.into_iter().collect());
-        let updated_files: Vec<FileId> = updated_files.into_iter().collect();
+        // analyse in file-id (= registration) order, not in the order of a randomly seeded hash set
+        let mut updated_files: Vec<FileId> = updated_files.into_iter().collect();
+        updated_files.sort();
         self.compilation.update_index(updated_files.clone());
         updated_files
     }
